@@ -582,6 +582,9 @@ class Engine(object):
                 except EngineError:
                     ok = False
                     break
+                t0 = truth(vals[-1]) if ops_is_boolish(vals[-1]) else None
+                if isinstance(t0, bool) and t0 != is_and:
+                    break               # decided by a concrete operand: python would not evaluate the rest
             if ok and all(ops_is_boolish(v) for v in vals):
                 return [(st, b_and(*vals) if is_and else b_or(*vals))]
         results = []          # (state, value)
@@ -1862,6 +1865,8 @@ class Engine(object):
                         for p, v2 in self.options.get("entry", {}).items():
                             amap["old_" + p] = v2
                         for f in fns:
+                            for pn in [a.arg for a in f.args.args]:
+                                amap.setdefault(pn, NONE)        # a variable not (yet) defined at this point
                             g = self.eval_spec(f, con, amap, s2)
                             s2 = self.oblige(s2, "ghost", node, ops._tb(truth(g)) if not isinstance(g, bool) else g, label=f.name)
                     out.append((kind, s2, v))
@@ -2449,6 +2454,8 @@ class Engine(object):
                     exits.append(s_f)
         var0 = None
         bodies = [(self._mark_iter(s_b), x) for s_b, x in bodies]
+        for s_b, _x in bodies:
+            s_b.ghost["loop_k%d" % ordn] = k
         for s_b, _ in bodies:
             if spec.variant is not None:
                 var0 = self.eval_spec(spec.variant, con, inv_args(s_b, k), s_b)
